@@ -168,4 +168,18 @@ var plans = map[string]Plan{
 			{Name: "delete-and-add", Pkg: "./checks/c20", Run: "^TestDeleteAndAdd$", Shards: [2]int{1, 1}},
 		},
 	},
+	"C08": {
+		Level: "exploration",
+		Rule: "cases are file sets fed to compile.Compile and, when that succeeds, gen.Generate, in child processes: arbitrary bytes; token-level mutations (delete / duplicate / swap / keyword<->identifier / hostile literals / token copied from elsewhere / raw bytes) of rendered generated programs; valid generated programs; structurally built programs around 18 kinds of reference cycle or dangling reference (typedef, typedef through containers, constant, constant<->struct default, struct default naming its own type, default chains, required-struct cycles, union self-reference, service extends, include loops, self include, deep typedef chains ...) of length 1..4, with a complete grid over (kind, length). " +
+			"Oracle: every input ends in value or error: a recovered panic, a child killed by a fatal error (stack limit 64 MiB) or a batch exceeding 4 minutes (re-run alone twice) is a violation. " +
+			"Non-trivial: structural inputs (cycle or dangling reference), or inputs that got past the parser. Distinct: SHA-256 of the file set.",
+		Assumptions: []string{
+			"debug.SetMaxStack(64 MiB) in the child: inputs are a few KiB, legitimate recursion is shallow",
+			"a 4 minute ceiling per batch of 250 inputs (normal: seconds) stands in for 'terminates'",
+		},
+		Units: []Unit{
+			{Name: "inputs", Pkg: "./checks/c08", Run: "^TestInputs$", Rapid: true, Shards: [2]int{12, 16}, Checks: [2]int{300, 5000}},
+			{Name: "structural-grid", Pkg: "./checks/c08", Run: "^TestStructuralGrid$", Shards: [2]int{1, 1}},
+		},
+	},
 }
